@@ -129,6 +129,11 @@ def _judge_iter(case, out):
         from mc.doubles import TypedStream  # pylint: disable=import-outside-toplevel
 
         stream = TypedStream(case["source"], None, bytearray, faults=False)
+    elif case.get("stream_type") == "buffered-raw":
+        # an io stream that is NOT seekable although it has seek()/tell() attributes (pipe, device)
+        from mc.doubles import DribbleRaw  # pylint: disable=import-outside-toplevel
+
+        stream = io.BufferedReader(DribbleRaw(case["source"], 7), buffer_size=16)
     else:
         stream = io.BytesIO(case["source"])
     rdr = RTCMReader(stream, validate=cfg["v"], quitonerror=cfg["q"],
@@ -284,6 +289,23 @@ def sock_cases(tier):
                                 "wire": wire, "cfg": cfgs[1], "encoding": enc, "segs": [1] * len(wire)})
                     out.append({"kind": "sockiter", "stream": f"chunksize:{line!r}/{len(body)}/{len(pre)}/7",
                                 "wire": wire, "cfg": cfgs[0], "encoding": enc, "segs": [7] * len(wire)})
+    # complete chunks whose COMPRESSED body is cut short / damaged (gzip, zlib, raw deflate)
+    import gzip  # pylint: disable=import-outside-toplevel
+    import zlib  # pylint: disable=import-outside-toplevel
+
+    plain = f2 * 3
+    for enc, blob in ((3, gzip.compress(plain, mtime=0)), (5, zlib.compress(plain)),
+                      (9, zlib.compressobj(wbits=-15).compress(plain) + zlib.compressobj(wbits=-15).flush())):
+        bodies = [blob[:k] for k in range(0, len(blob))] + [blob + b"\x00", blob[:-1] + b"\xff", blob[1:]]
+        for k, body in enumerate(bodies):
+            wire = f"{len(body):x}".encode() + b"\r\n" + body + b"\r\n"
+            for tail in (b"", good + b"0\r\n\r\n"):
+                for cfg in cfgs:
+                    out.append({"kind": "sockiter", "stream": f"enc{enc}:body{k}/{len(tail)}", "wire": wire + tail,
+                                "cfg": cfg, "encoding": enc})
+                out.append({"kind": "sockiter", "stream": f"enc{enc}:body{k}/{len(tail)}/late",
+                            "wire": good + wire + tail, "cfg": cfgs[1], "encoding": enc,
+                            "segs": [len(good)] + [len(wire)]})
     return out
 
 
@@ -445,6 +467,10 @@ def _explore_stream(name, source, cfgs, bound, tier, st):
                 case1 = {"kind": "iter", "stream": name + " (bytearray stream)", "source": source,
                          "cfg": cfg, "stream_type": "bytearray"}
                 st.add(case1, judge(case1))
+                if cfg["v"] == 1 and cfg["p"]:
+                    case2 = {"kind": "iter", "stream": name + " (non-seekable BufferedReader)",
+                             "source": source, "cfg": cfg, "stream_type": "buffered-raw"}
+                    st.add(case2, judge(case2))
 
             def body(ch, cfg=cfg, source=source, name=name):
                 out = core.Outcome()
